@@ -155,6 +155,27 @@ def run(ctx):
         why = "; ".join(why) if why else "append (i, current_new) once per bin; current_new starts at 0, += 1 only"
     ctx.check(okm, "C10.b", "merge_bins:min_frequency-map", why, why, mb.where)
 
+    chk = {}
+    for n in ast.walk(mb.node):
+        if isinstance(n, ast.If) and U(n.test) == "self.ndim == 1":
+            for br, key in ((n.body, "1d"), (n.orelse, "nd")):
+                for st in br:
+                    for x in ast.walk(st):
+                        if isinstance(x, ast.Assign) and U(x.targets[0]) == "check":
+                            chk[key] = U(x.value)
+    ok_marg = chk.get("1d") in ("self.frequencies", "self._frequencies") and chk.get("nd") in (
+        "cast(HistogramND, self).projection(axis).frequencies", "self.projection(axis).frequencies")
+    ctx.check(ok_marg, "C10.b", "merge_bins:min_frequency-marginal", "thresholds are compared with the marginal of the merged axis (projection(axis))",
+              f"the min_frequency map is built from {chk}: for ND histograms it must be the marginal along the merged axis "
+              "(summing over `axis` itself gives the other axis' length)", mb.where)
+    from rules import wiring
+    wiring.axis_resolved(ctx, "C10.b", mb)
+    wiring.axis_resolved(ctx, "C10.a", cb)
+    allocs = [c for c in calls_in(rd.node) if call_is(c, "zeros")]
+    okalloc = len(allocs) == 2 and all(any(k.arg == "dtype" and U(k.value) in ("self._frequencies.dtype", "self._errors2.dtype") for k in c.keywords) for c in allocs)
+    ctx.check(okalloc, "C10.a", "HistogramBase._reshape_data:alloc-dtype", "new arrays have the element type of the arrays they replace",
+              "the re-binned arrays are not allocated with the element type of the current arrays (contents would be truncated while summed)", rd.where)
+
     # ---- C10.c refusals and edge merging ----------------------------------------------------------------------------------
     ctx.rule("C10.c", "non-integral amount, gap inside a run (edge != edge) and incomplete maps are refused before the change; "
              "runs keep first left and last right edge", 5)
